@@ -1032,6 +1032,13 @@ class Emitter:
         return '{' + ', '.join(self.expr(c) for c in ks) + '}'
 
     # ----- calls
+    def rx_call(self, key):
+        """fallback call table: (regex on the qualified callee name) -> model, for families of template instantiations"""
+        for rx, tgt in self.spec.get('calls_rx', []):
+            if re.fullmatch(rx, key):
+                return tgt
+        return None
+
     def callee_name(self, key, sig, cls):
         """resolve a callee to a C function name through the spec's call table"""
         full = (cls + '::' + key) if cls else key
@@ -1041,6 +1048,8 @@ class Emitter:
         ent = self.calls.get(full + '|' + sig)
         if ent is None:
             ent = self.calls.get(full)
+        if ent is None:
+            ent = self.rx_call(full)
         if ent is None:
             raise Unsupported('unmodelled call: key=%r sig=%r' % (full, sig))
         return ent
@@ -1152,7 +1161,17 @@ class Emitter:
         h = self.spec.get('call_handlers', {}).get(cls + '::' + nm)
         if h:
             return h(self, n, args, stmt)
+        if nm.startswith('operator ') and not self.calls.get(cls + '::' + nm):
+            # conversion operator of a class the spec maps to a plain scalar (atomics as plain variables): the object itself
+            try:
+                if self.base_ctype(cls) in BUILTIN:
+                    self.rules['scalar_wrapper_conversion'] += 1
+                    return self.expr(base)
+            except Unsupported:
+                pass
         ent = self.calls.get(cls + '::' + nm)
+        if ent is None:
+            ent = self.rx_call(cls + '::' + nm)
         if callable(ent):
             # overloaded / templated members: the spec chooses by the argument types
             ent = ent(self, n, args)
@@ -1173,7 +1192,10 @@ class Emitter:
             argl = self.args_for(sig, args, cname)
         else:
             argl = []
-            for a in args:
+            for i, a in enumerate(args):
+                if a.get('kind') == 'CXXDefaultArgExpr' and not self.kids(a):
+                    argl.append(self.default_arg(cname, i, ''))
+                    continue
                 if self.is_struct_type(a['type']) and a.get('valueCategory') == 'lvalue':
                     raise Unsupported('member call %s::%s with class-typed lvalue arg needs member_sigs entry' % (cls, nm))
                 argl.append(self.expr(a))
@@ -1199,6 +1221,8 @@ class Emitter:
                 self.rules['pod_copy_assign'] += 1
                 return '(%s = %s)' % (self.expr(args[0]), self.expr(args[1]))
             cname = self.callee_name(nm, sig, cls)
+            if isinstance(cname, dict):
+                cname = cname['c']
             selfarg = self.lvalue_addr(args[0])
             argl = [selfarg] + self.args_for(sig, args[1:], cname)
         else:
@@ -1237,7 +1261,7 @@ class Emitter:
             if len(args) == 1 and len(pts) == 1 and self.class_of(pts[0]) == cls:
                 self.rules['pod_copy'] += 1
                 return ['%s = %s;' % (target, self.expr(args[0]))]
-        ent = self.calls.get(key + '|' + ctype) or self.calls.get(key)
+        ent = self.calls.get(key + '|' + ctype) or self.calls.get(key) or self.rx_call(key + '|' + ctype) or self.rx_call(key)
         if ent is None and re.match(r'(std::)?pair<', cls) and len(args) == 1 and len(pts) == 1 and re.match(r'(const )?(std::)?pair<', pts[0].strip()):
             # std::pair converting copy/move constructor: memberwise
             self.rules['pair_converting_ctor'] += 1
